@@ -1693,37 +1693,40 @@ func boundaryStakes(rng *rand.Rand, nO int, lo, hi int64) []int64 {
 // lastObserved = MaxKeepEventSize, +1, +2), a third oracle bonds late (absent-key fallback far from 0) and catches up with
 // competing hashes; old parked claims are executed after their attestations were pruned.
 func runLongHistory(t *testing.T, s *hx.Suite, out *hx.Out, rng *rand.Rand, chain string) *world {
-	w := newWorld(t, s, out, rng, chain, 3, 1, 100, "0.1", 30000)
-	w.opGov([]int{1, 2, 3})
+	w := newWorld(t, s, out, rng, chain, 4, 1, 100, "0.1", 30000)
+	w.opGov([]int{1, 2, 3, 4})
 	w.opBond(1, 101, 201, w.units(34))
 	w.opBond(2, 102, 202, w.units(33))
+	w.opBond(3, 103, 203, w.units(10)) // total 77, bar 50: 34+33 reaches it, 34+10 and 33+10 do not
 	total := uint64(crosschaintypes.MaxKeepEventSize) + 4 + uint64(rng.Intn(6))
 	late := 20 + uint64(rng.Intn(60))
 	for n := uint64(1); n <= total; n++ {
 		kind := []string{"p", "c", "o"}[rng.Intn(3)]
-		h := uint64(0)
-		if rng.Intn(8) == 0 {
-			// split vote first: nobody reaches the quorum with h=1, then both agree on h=0
-			w.opClaim(101, 101, n, 1, kind)
-			h = 0
+		if rng.Intn(6) == 0 {
+			// the small oracle catches up with competing claims first (no quorum), then the two big ones agree
+			for m := w.k.GetLastEventNonceByOracle(w.s.Ctx, w.oracles[2]) + 1; m <= n; m++ {
+				w.opClaim(103, 103, m, 1, kind)
+			}
 		}
-		if w.k.GetLastEventNonceByOracle(w.s.Ctx, w.oracles[0]) < n {
-			w.opClaim(101, 101, n, h, kind)
-		}
-		w.opClaim(102, 102, n, h, kind)
+		w.opClaim(101, 101, n, 0, kind)
+		w.opClaim(102, 102, n, 0, kind)
 		if n == late {
-			w.opBond(3, 103, 203, w.units(33))
+			w.opBond(4, 104, 204, w.units(5))
 		}
 		if n > late && rng.Intn(3) == 0 {
-			m := w.k.GetLastEventNonceByOracle(w.s.Ctx, w.oracles[2]) + 1
-			w.opClaim(103, 103, m, uint64(rng.Intn(2)), "p")
+			m := w.k.GetLastEventNonceByOracle(w.s.Ctx, w.oracles[3]) + 1
+			w.opClaim(104, 104, m, uint64(rng.Intn(2)), "p")
 		}
 		if rng.Intn(10) == 0 {
 			m := 1 + uint64(rng.Int63n(int64(n)))
 			w.opExec(w.genTree(m))
 		}
 	}
-	out.Count("scenario:long-history(pruning)")
+	if lo := w.k.GetLastObservedEventNonce(w.s.Ctx); lo > crosschaintypes.MaxKeepEventSize {
+		out.Count("scenario:long-history(pruning)")
+	} else {
+		out.Count(fmt.Sprintf("scenario:long-history:stuck-at-%d", lo))
+	}
 	for i := 0; i < 40; i++ {
 		w.randomOp()
 	}
